@@ -214,4 +214,16 @@ PROPS = {
         floors=dict(quick=dict(distinct_nontrivial=2000, dfs_prefixes_completed=784, dfs_nodes=17000000), thorough=dict(distinct_nontrivial=2000, dfs_prefixes_completed=784, dfs_nodes=400000000)),
         coverage_static=dict(quick=dict(exhaustive_subspaces=['all 28^k operation sequences for k <= 5']), thorough=dict(exhaustive_subspaces=['all 28^k operation sequences for k <= 6'])),
     ),
+
+    'C19': dict(
+        technique='ThreadSanitizer (happens-before race detection) on T threads each driving its own Encoder/Decoder/Status and the static TECMP decoder on independent seeded workloads; per-thread digests compared with single-threaded runs; helgrind as second detector in thorough',
+        level_text='Exploration of schedules: 8 (quick) / 16 (thorough) threads start on a barrier and run mixed workloads (encode+decode, reassembly, payload builders, TECMP conversion, status tracker) with sched_yield jitter between library calls; every output is folded into a digest that must equal the digest of the same workload run alone beforehand; the ThreadSanitizer log must contain no report block with a library frame (blocks de-duplicated by kind and library functions). An atomic counter records how many threads were inside library code simultaneously.',
+        level_note='Trusted: ThreadSanitizer (reports unordered conflicting accesses even if they did not collide in time, which is what "no unsynchronised shared state" needs), valgrind helgrind. Sampled schedules, not all schedules.',
+        stages=[dict(driver='drv_threads', flavour='tsan', runner='tsan', shards=dict(quick=4, thorough=4)),
+                dict(driver='drv_threads', flavour='plain0', runner='helgrind', tiers=('thorough',), env=dict(VF_THREADS='4', VF_STEPS='60', VF_ROUNDS='3'))],
+        rule='cases = rounds; one evaluation = one thread workload whose concurrent digest was compared with its single-threaded digest. Non-trivial iff at least 2 threads were inside library code at the same time during its round; distinct = distinct workload seeds.',
+        assumptions=COMMON_ASSUME[1:] + ['g++ 12 ThreadSanitizer intercepts every synchronisation the harness uses (std::thread, atomics)'],
+        floors=dict(quick=dict(distinct_nontrivial=128, rounds_with_at_least_half_the_threads_overlapping=16, tsan_log_files=0),
+                    thorough=dict(distinct_nontrivial=2000, rounds_with_at_least_half_the_threads_overlapping=100)),
+    ),
 }
